@@ -13,12 +13,15 @@ def cases(tier, rng):
             ({"k": "l", "x": ids}, "list"),
             ({"k": "l", "x": ids}, "ndarray"),
             ({"k": "m", "x": [[i] for i in ids]}, "ndarray"),  # column slice kept 2-D (trough.wells[:, [0]])
+            ({"k": "m", "x": [[i] for i in ids]}, "list"),     # the same table as nested lists (trough.wells.tolist())
+            ({"k": "l", "x": ids}, "tuple"),
         ]
         if ln % 2 == 0:
             # 2-D id array with two columns as trough.wells of a two-column trough
             h = ln // 2
             shapes.append(({"k": "m", "x": [[wid(r, 0), wid(r, 1)] for r in range(h)]}, "ndarray"))
             shapes.append(({"k": "m", "x": [[wid(r, 0), wid(r, 1)] for r in range(h)]}, "fortran"))
+            shapes.append(({"k": "m", "x": [[wid(r, 0), wid(r, 1)] for r in range(h)]}, "list"))
         if tier == "quick":
             ns = sorted(set([0, 1, ln - 1, ln, ln + 1, 2 * ln, 3 * ln, 3 * ln + 1] + [rng.randint(0, nmax) for _ in range(4)]))
         else:
